@@ -294,6 +294,33 @@ func runGenerated(c *vlib.Check, bins map[string]string, vs []vlib.Variant, sche
 						map[string]any{"variant": id, "mode": mode, "request": rq[d.Req], "diff": d, "requests": rq})
 				}
 			}
+			// race detector reports of the current probe process, one finding class per function. In the
+			// process that serves only the sentinel requests a report whose other stack could not be
+			// restored is attributed to the one write there is (graphql.ErrorOnPath).
+			races := func(sentinelProc bool) {
+				p.Close()
+				p.Kill() // collects stderr
+				for _, blk := range strings.Split(p.Stderr, "==================") {
+					if !strings.Contains(blk, "WARNING: DATA RACE") {
+						continue
+					}
+					mu.Lock()
+					gs.RaceReports++
+					mu.Unlock()
+					key := "gen:data-race"
+					for _, fn := range []string{"graphql.ErrorOnPath", "executableSchema).Exec", "bytes.(*Buffer)", "transport.writeJson", "mergeHeaders", "CollectFields", "transport.POST", "transport.GET", "executor."} {
+						if strings.Contains(blk, fn) {
+							key = "gen:data-race:" + strings.Trim(fn, ".()*")
+							break
+						}
+					}
+					if sentinelProc && key != "gen:data-race:graphql.ErrorOnPath" && strings.Contains(blk, "failed to restore the stack") {
+						key = "gen:data-race:graphql.ErrorOnPath"
+					}
+					c.Violate(key, fmt.Sprintf("the race detector reported a data race in generated server %s serving concurrent requests:\n%s", id, trunc(strings.TrimSpace(blk), 1400)),
+						map[string]any{"variant": id, "race_report": trunc(blk, 6000)})
+				}
+			}
 			// 1. gated: every order of Execute / Write of three requests in flight
 			res := call(ur.C07Cmd{ID: id + "-gated", Mode: "gated", Procs: 1, Reqs: reqs, Scheds: cs, ServerPer: 30})
 			report("gated", reqs, res)
@@ -327,8 +354,21 @@ func runGenerated(c *vlib.Check, bins map[string]string, vs []vlib.Variant, sche
 			}
 			// 2. free-running
 			if !p.Died {
+				early := res
 				res = call(ur.C07Cmd{ID: id + "-free", Mode: "free", Procs: 4, Reqs: reqs, Clients: 8, Rounds: freeRounds, HoldEvery: 3})
 				report("free", reqs, res)
+				// the alone-oracle is asked again by every command: a fresh server's answer must not
+				// depend on what OTHER servers of the process served in between (package-level memory)
+				if res != nil && early != nil && len(res.Alone) == len(early.Alone) {
+					for i := range res.Alone {
+						if res.Alone[i] != early.Alone[i] {
+							c.Violate("gen:fresh-servers-disagree", fmt.Sprintf("generated server %s: %s %s\nalone on a fresh server before the process served the concurrent schedules:\n  %d %s %s\nalone on a fresh server afterwards:\n  %d %s %s",
+								id, reqs[i].Method, trunc(reqs[i].Query, 200), early.Alone[i].Status, early.Alone[i].CType, trunc(early.Alone[i].Body, 400), res.Alone[i].Status, res.Alone[i].CType, trunc(res.Alone[i].Body, 400)),
+								map[string]any{"variant": id, "request": reqs[i]})
+							break
+						}
+					}
+				}
 				if res != nil {
 					mu.Lock()
 					gs.Free += int64(res.Requests)
@@ -336,7 +376,12 @@ func runGenerated(c *vlib.Check, bins map[string]string, vs []vlib.Variant, sche
 					mu.Unlock()
 				}
 			}
-			// 3. one sentinel error value at different paths: successive requests, then simultaneous ones
+			// 3. one sentinel error value at different paths: successive requests, then simultaneous ones -
+			// in a process of its own, so that its race reports cannot be confused with others
+			races(false)
+			if p, err = vlib.StartProc(bins[id], []string{"GORACE=halt_on_error=0 exitcode=0"}); err != nil {
+				vlib.Infra("start probe %s: %v", id, err)
+			}
 			if !p.Died {
 				res = call(ur.C07Cmd{ID: id + "-sentinel", Mode: "seq", Procs: 1, Reqs: sreqs, Hists: sseq})
 				report("sentinel-seq", sreqs, res)
@@ -355,26 +400,7 @@ func runGenerated(c *vlib.Check, bins map[string]string, vs []vlib.Variant, sche
 				gs.Sentinel += int64(n)
 				mu.Unlock()
 			}
-			p.Close()
-			p.Kill() // collects stderr
-			// race detector reports, one finding class per function
-			for _, blk := range strings.Split(p.Stderr, "==================") {
-				if !strings.Contains(blk, "WARNING: DATA RACE") {
-					continue
-				}
-				mu.Lock()
-				gs.RaceReports++
-				mu.Unlock()
-				key := "gen:data-race"
-				for _, fn := range []string{"graphql.ErrorOnPath", "executableSchema).Exec", "bytes.(*Buffer)", "transport.writeJson", "mergeHeaders", "CollectFields", "transport.POST", "transport.GET", "executor."} {
-					if strings.Contains(blk, fn) {
-						key = "gen:data-race:" + strings.Trim(fn, ".()*")
-						break
-					}
-				}
-				c.Violate(key, fmt.Sprintf("the race detector reported a data race in generated server %s serving concurrent requests:\n%s", id, trunc(strings.TrimSpace(blk), 1400)),
-					map[string]any{"variant": id, "race_report": trunc(blk, 6000)})
-			}
+			races(true)
 		}(v)
 		gs.Variants = append(gs.Variants, v.ID())
 	}
